@@ -672,7 +672,9 @@ class Node:
                 r_list += self.tcp_sockets
             if self.sctp_sockets:
                 r_list += self.sctp_sockets
-            for conn_id, conn_socket in self.peer_sockets.items():
+            # other threads add connections while this loop runs, e.g.
+            # `start` dialling the persistent peers
+            for conn_id, conn_socket in list(self.peer_sockets.items()):
                 conn = self.connections.get(conn_id)
                 if not conn:
                     continue
